@@ -225,6 +225,91 @@ def run(ctx):
     state = free - callables - {"_PM6_D_PARAM_CACHE", "math", "torch", "True", "False", "None"}
     ctx.check(not state, "R2", te, pf, "_pm6_d_param_from_key", "free names", "PM6 d-parameter cache entry is a pure function of its key",
               f"_pm6_d_param_from_key reads {sorted(state)} besides its key: cached entries depend on process state")
+    # the memo key covers every component of the key tuple that the cached computation reads (a truncated / re-derived key aliases entries)
+    par = pf.args.args[0].arg if pf.args.args else None
+    unpack = [st for st in pf.body if isinstance(st, ast.Assign) and isinstance(st.targets[0], ast.Tuple) and isinstance(st.value, ast.Name) and st.value.id == par]
+    if par is None or len(unpack) != 1:
+        raise AnalysisError("_pm6_d_param_from_key: key unpacking not found")
+    comp = [e.id for e in unpack[0].targets[0].elts]
+    used = {x.id for st in pf.body if st is not unpack[0] for x in ast.walk(st) if isinstance(x, ast.Name) and isinstance(x.ctx, ast.Load) and x.id in comp}
+    ldefs = {}
+    for st in ast.walk(pf):
+        if isinstance(st, ast.Assign) and isinstance(st.targets[0], ast.Name):
+            ldefs.setdefault(st.targets[0].id, []).append(st.value)
+
+    def covered(e, depth=0):
+        """indices of the key tuple that the expression e determines, or None if not understood"""
+        if isinstance(e, ast.Name):
+            if e.id == par:
+                return set(range(len(comp)))
+            if e.id in comp:
+                return {comp.index(e.id)}
+            if e.id in ldefs and len(ldefs[e.id]) == 1 and depth < 4:
+                return covered(ldefs[e.id][0], depth + 1)
+            return None
+        if isinstance(e, ast.Subscript) and isinstance(e.value, ast.Name) and e.value.id == par:
+            sl = e.slice
+            try:
+                if isinstance(sl, ast.Slice):
+                    lo = ast.literal_eval(sl.lower) if sl.lower is not None else None
+                    up = ast.literal_eval(sl.upper) if sl.upper is not None else None
+                    stp = ast.literal_eval(sl.step) if sl.step is not None else None
+                    return set(range(len(comp))[slice(lo, up, stp)])
+                return {range(len(comp))[ast.literal_eval(sl)]}
+            except Exception:
+                return None
+        if isinstance(e, (ast.Tuple, ast.List)):
+            out = set()
+            for x in e.elts:
+                c = covered(x, depth)
+                if c is None:
+                    return None
+                out |= c
+            return out
+        if isinstance(e, ast.Call) and isinstance(e.func, ast.Name) and e.func.id == "tuple" and len(e.args) == 1:
+            return covered(e.args[0], depth)
+        if isinstance(e, ast.BinOp) and isinstance(e.op, ast.Add):
+            a, b = covered(e.left, depth), covered(e.right, depth)
+            return None if a is None or b is None else a | b
+        return None
+    n_acc = 0
+    for n in ast.walk(pf):
+        kexpr = None
+        if isinstance(n, ast.Call) and isinstance(n.func, ast.Attribute) and n.func.attr in ("get", "setdefault", "pop") and norm(n.func.value) == "_PM6_D_PARAM_CACHE" and n.args:
+            kexpr = n.args[0]
+        elif isinstance(n, ast.Subscript) and norm(n.value) == "_PM6_D_PARAM_CACHE":
+            kexpr = n.slice
+        elif isinstance(n, ast.Compare) and len(n.ops) == 1 and isinstance(n.ops[0], (ast.In, ast.NotIn)) and norm(n.comparators[0]) == "_PM6_D_PARAM_CACHE":
+            kexpr = n.left
+        if kexpr is None:
+            continue
+        n_acc += 1
+        cov = covered(kexpr)
+        need = {comp.index(u) for u in used}
+        miss = sorted(comp[i] for i in (need - cov)) if cov is not None else sorted(used)
+        ctx.check(cov is not None and need <= cov, "R2", te, n, "_pm6_d_param_from_key", kexpr,
+                  f"PM6 d-parameter memo is addressed by a key that contains every component the cached computation reads ({len(need)} of {len(comp)})",
+                  f"PM6 d-parameter memo is addressed by `{norm(kexpr)}` which does not determine {miss}: a later job with other values of these parameters "
+                  f"(learned parameters, another parameter directory) silently receives the entry computed for the earlier job")
+    if n_acc < 2:
+        raise AnalysisError("_pm6_d_param_from_key: cache accesses not found")
+    kb = te.func("_pm6_d_param_key")
+    kparams = [a.arg for a in kb.args.args]
+    rets = [st for st in ast.walk(kb) if isinstance(st, ast.Return)]
+    okb = len(rets) == 1 and isinstance(rets[0].value, ast.Tuple)
+    lost = list(kparams)
+    if okb:
+        for e in rets[0].value.elts:
+            x = e
+            while isinstance(x, ast.Call) and ((isinstance(x.func, ast.Name) and x.func.id in ("int", "float", "str", "bool")) or callee_attr(x) == "item") and (x.args or isinstance(x.func, ast.Attribute)):
+                x = x.args[0] if x.args else x.func.value
+            if isinstance(x, ast.Name) and x.id in lost:
+                lost.remove(x.id)
+            else:
+                okb = False
+    ctx.check(okb and not lost and len(kparams) == len(comp), "R2", te, kb, "_pm6_d_param_key", rets[0] if rets else kb,
+              "PM6 d-parameter key is the exact tuple of all its inputs (plain int/float conversions only)",
+              f"PM6 d-parameter key drops or coarsens inputs ({lost or 'non-identity element'}): distinct parameter sets collide in the memo")
 
     # ------------------------------------------------------------------ R3
     n_store = 0
@@ -257,7 +342,12 @@ def run(ctx):
                                 tainted.add(x.id)
                             if isinstance(x, ast.Attribute) and x.attr in INPUT_NAMES and isinstance(x.value, ast.Name) and x.value.id in ("molecule", "mol", "self"):
                                 tainted.add(norm(x))
-                    ctx.check(not tainted, "R3", m, n, q, n,
+                    construct = n
+                    if tainted:
+                        # an input-derived store is identified together with the conditions it runs under (a guard that is dropped is another finding)
+                        gs = sorted(("" if p_ else "not ") + norm(a) for a, p_, _ in controlling(m, m.enclosing_stmt(n) if not isinstance(n, ast.stmt) else n))
+                        construct = f"{norm(n)} under [{'; '.join(gs)}]"
+                    ctx.check(not tainted, "R3", m, n, q, construct,
                               f"{m.rel}::{q}: settings store `{short(tgt, 50)}` is configuration-derived",
                               f"`{short(n, 80)}` stores a value derived from this call's input ({sorted(tainted)}) in the caller's settings dictionary: a "
                               f"later calculation that reuses the dictionary silently inherits it")
